@@ -5,6 +5,7 @@ package vcore
 import (
 	"fmt"
 	"io"
+	"os"
 	"sync"
 
 	log "github.com/sirupsen/logrus"
@@ -77,5 +78,8 @@ func containsStr(s, sub string) bool {
 func QuietLogs() {
 	log.SetOutput(io.Discard)
 	log.SetLevel(log.WarnLevel)
+	if os.Getenv("VERIF_DEBUGLOG") != "" {
+		log.SetLevel(log.DebugLevel)
+	}
 	log.AddHook(Tap)
 }
